@@ -403,3 +403,196 @@ print(json.dumps({"mesh_frequencies_changed_by": float(np.abs(m.frequencies - be
     import json
     r = json.loads(out.strip().splitlines()[-1])
     return {"reproduced": r["mesh_frequencies_changed_by"] > 0, "real_code": r, "expected": "mesh.frequencies unchanged by constructing ThermalPropertiesBase"}
+
+
+def c_driver(run):
+    """Python drivers around the (separately proved) mesh kernel and mode functions.
+
+    ThermalProperties._run_c_thermal_properties: on a generic temperature row (a length-1 temperature array stands for any
+    length: the driver is vectorised along that axis and the kernel contract is per row) the kernel is called exactly once,
+    on a fresh zero (n_T, 3) array, with this object's temperatures, *whole* frequency and weight arrays, cut-off and
+    statistics flag; the reported F, S, C_V are K_F/W * EvTokJmol + ZPE, K_S/W * EvTokJmol * 1000, K_Cv/W * EvTokJmol * 1000
+    with K_x the kernel's weighted sums (its proved contract) and W = sum of this object's weights.
+    run_free_energy / run_entropy / run_heat_capacity (Python path): mode function selected by the sign of t, same
+    normalisation; _run_py_thermal_properties reports (F, S * 1000, C_V * 1000) of those for the same generic temperature."""
+    from pvc.pyexec import Record, Opaque, Ref, num, Closure
+    mod = pyexec.load(PF)
+    EV, W, ZPE = z3.Real("EvTokJmol"), z3.Real("sum_of_weights"), z3.Real("zero_point_energy")
+    Tt = z3.Real("temperature_t")
+    K = [z3.Real("kernel_sum_" + s) for s in ("F", "S", "Cv")]
+    m = mod.method("ThermalProperties", "_run_c_thermal_properties")
+    pref = PF + ":ThermalProperties._run_c_thermal_properties"
+    F_, W_, CUT, CL = Opaque("self._frequencies"), Opaque("self._weights"), z3.Real("cutoff_eV"), z3.Bool("classical")
+    calls, fresh = [], []
+
+    def kernel(ex, st, args, kwargs):
+        calls.append((list(args), dict(kwargs), list(st.pc)))
+        if args and isinstance(args[0], Ref) and isinstance(st.heap[args[0].id], NDArr) and len(st.heap[args[0].id].flat) == 3:
+            a = st.heap[args[0].id]
+            fresh.append(all(z3.is_true(z3.simplify(num(v) == 0)) for v in a.flat))
+            a.flat = [num(v) + k for v, k in zip(a.flat, K)]       # proved kernel contract: props[t, :] += (K_F, K_S, K_Cv)(t)
+        return None
+
+    def npsum(ex, st, args, kwargs):
+        return W if (args and args[0] is W_) else z3.Real("sum_of_something_else!%d" % next(Ref._ids))
+    hooks = {"phonopy._phonopy.thermal_properties": kernel, "numpy.sum": npsum}
+    ex = PyExec(mod, run.sink, pref, hooks=hooks, opaque_unknown=True, split=True, globals_={"EvTokJmol": EV})
+    st = PState()
+    st.pc += [W > 0, EV > 0]
+    temps = st.new(NDArr((1,), [Tt]))
+    self_ref = st.new(Record("ThermalProperties", {
+        "_temperatures": temps, "_frequencies": F_, "_weights": W_, "_cutoff_frequency": CUT, "_classical": CL,
+        "_zero_point_energy": ZPE, "_thermal_properties": None}))
+    n0 = len(run.sink.obls)
+    outs = ex.call_function(st, m, [], self_ref=self_ref, cls="ThermalProperties")
+    if not outs:
+        raise CheckerError("_run_c_thermal_properties: no returning path")
+    for (s2, fl, v) in outs:
+        rec = s2.heap[self_ref.id].attrs
+        here = [c for c in calls if all(any(p.eq(q) for q in s2.pc) for p in c[2])]
+        ok1 = len(here) == 1
+        run.sink.add(pref, "call-pre", list(s2.pc), z3.BoolVal(ok1), meta={"label": "the compiled kernel is called exactly once (%d calls)" % len(here)}).replay = replay_c_driver
+        a_ = (here[0][0] + [None] * 6)[:6] if here else [None] * 6
+        for nm, got, want in (("temperatures", a_[1], temps), ("whole frequency array", a_[2], F_), ("whole weight array", a_[3], W_),
+                              ("cut-off frequency", a_[4], CUT), ("classical flag", a_[5], CL)):
+            same = (got is want) or (isinstance(got, Ref) and isinstance(want, Ref) and got.id == want.id) or \
+                   (z3.is_expr(got) and z3.is_expr(want) and got.eq(want))
+            run.sink.add(pref, "call-pre", list(s2.pc), z3.BoolVal(bool(ok1 and same)),
+                         meta={"label": "the kernel receives this object's %s" % nm}).replay = replay_c_driver
+        run.sink.add(pref, "call-pre", list(s2.pc), z3.BoolVal(bool(fresh) and all(fresh)),
+                     meta={"label": "the kernel accumulates into a fresh zero array"}).replay = replay_c_driver
+        tp = rec.get("_thermal_properties")
+        want = [K[0] / W * EV + ZPE, K[1] / W * EV * 1000, K[2] / W * EV * 1000]
+        if not (isinstance(tp, tuple) and len(tp) == 4):
+            raise CheckerError("_run_c_thermal_properties: _thermal_properties is not a 4-tuple in the model")
+        run.sink.add(pref, "post", list(s2.pc), z3.BoolVal(isinstance(tp[0], Ref) and tp[0].id == temps.id),
+                     meta={"label": "reported temperatures are this object's temperatures"}).replay = replay_c_driver
+        for nm, x, w in zip(("free energy", "entropy", "heat capacity"), tp[1:], want):
+            val = None
+            if isinstance(x, Ref) and isinstance(s2.heap[x.id], NDArr) and len(s2.heap[x.id].flat) == 1:
+                val = num(s2.heap[x.id].flat[0])
+            goal = (val == w) if val is not None else z3.BoolVal(False)
+            run.sink.add(pref, "post", list(s2.pc), goal,
+                         meta={"label": "reported %s == kernel sum / sum(weights) * EvTokJmol%s" % (nm, " + zero-point energy" if nm[0] == "f" else " * 1000")}).replay = replay_c_driver
+    run.functions.append({"file": PF, "function": "ThermalProperties._run_c_thermal_properties", "line": m.lineno, "sha1": mod.sha(m),
+                          "obligations": len(run.sink.obls) - n0})
+    run.abstracted += sorted(set(ex.abstracted))[:10]
+
+
+
+def py_drivers(run):
+    """see c_driver: Python path (mode-function selection by the sign of t, normalisation, unit factors)"""
+    from pvc.pyexec import Record, Opaque, Ref, num, Closure
+    mod = pyexec.load(PF)
+    EV, W = z3.Real("EvTokJmol"), z3.Real("sum_of_weights")
+    Tt = z3.Real("temperature_t")
+    F_, W_, CUT, CL = Opaque("self._frequencies"), Opaque("self._weights"), z3.Real("cutoff_eV"), z3.Bool("classical")
+
+    def npsum(ex, st, args, kwargs):
+        return W if (args and args[0] is W_) else z3.Real("sum_of_something_else!%d" % next(Ref._ids))
+    SUMS = {}
+
+    def calc(ex, st, args, kwargs):
+        fn = args[0].node.name if isinstance(args[0], Closure) else repr(args[0])
+        targ = args[1] if len(args) > 1 else kwargs.get("t")
+        key = (fn, "None" if targ is None else str(targ))
+        return SUMS.setdefault(key, z3.Real("weighted_sum[%s,%s]" % key))
+    t = z3.Real("t")
+    for meth, pos, zero in (("run_free_energy", "mode_F", "mode_ZPE"), ("run_heat_capacity", "mode_cv", "mode_zero"), ("run_entropy", "mode_S", "mode_zero")):
+        m = mod.method("ThermalPropertiesBase", meth)
+        pref = PF + ":ThermalPropertiesBase." + meth
+        ex = PyExec(mod, run.sink, pref, hooks={"ThermalPropertiesBase._calculate_thermal_property": calc, "numpy.sum": npsum},
+                    opaque_unknown=True, split=True, globals_={"EvTokJmol": EV})
+        st = PState()
+        st.pc += [W > 0, EV > 0]
+        self_ref = st.new(Record("ThermalPropertiesBase", {"_weights": W_, "_frequencies": F_, "_cutoff_frequency": CUT, "_classical": CL}))
+        n0 = len(run.sink.obls)
+        outs = ex.call_function(st, m, [t], self_ref=self_ref, cls="ThermalPropertiesBase")
+        if not outs:
+            raise CheckerError(meth + ": no returning path")
+        for (s2, fl, v) in outs:
+            sp_ = SUMS.setdefault((pos, "t"), z3.Real("weighted_sum[%s,%s]" % (pos, "t")))
+            sz_ = SUMS.setdefault((zero, "None"), z3.Real("weighted_sum[%s,%s]" % (zero, "None")))
+            goal = (num(v) == z3.If(t > 0, sp_, sz_) / W * EV) if z3.is_expr(v) or isinstance(v, (int, float)) else z3.BoolVal(False)
+            run.sink.add(pref, "post", list(s2.pc), goal,
+                         meta={"label": "%s(t) == weighted mesh sum of %s (t > 0) or %s (t <= 0), divided by sum(weights), times EvTokJmol" % (meth, pos, zero)})
+        run.functions.append({"file": PF, "function": "ThermalPropertiesBase." + meth, "line": m.lineno, "sha1": mod.sha(m),
+                              "obligations": len(run.sink.obls) - n0})
+    # _run_py_thermal_properties on the generic temperature
+    m = mod.method("ThermalProperties", "_run_py_thermal_properties")
+    pref = PF + ":ThermalProperties._run_py_thermal_properties"
+    P = [z3.Real("py_" + s) for s in ("F", "S", "Cv")]
+    seen = []
+
+    def getpy(ex, st, args, kwargs):
+        seen.append(args[0] if args else kwargs.get("t"))
+        return tuple(P)
+    ex = PyExec(mod, run.sink, pref, hooks={"ThermalProperties._get_py_thermal_properties": getpy}, opaque_unknown=True, split=True)
+    st = PState()
+    temps = st.new(NDArr((1,), [Tt]))
+    self_ref = st.new(Record("ThermalProperties", {"_temperatures": temps, "_thermal_properties": None}))
+    n0 = len(run.sink.obls)
+    outs = ex.call_function(st, m, [], self_ref=self_ref, cls="ThermalProperties")
+    for (s2, fl, v) in outs:
+        tp = s2.heap[self_ref.id].attrs.get("_thermal_properties")
+        if not (isinstance(tp, tuple) and len(tp) == 4):
+            raise CheckerError("_run_py_thermal_properties: _thermal_properties is not a 4-tuple in the model")
+        run.sink.add(pref, "post", list(s2.pc), z3.BoolVal(len(seen) == 1 and z3.is_expr(seen[0]) and seen[0].eq(Tt)),
+                     meta={"label": "the mode sums are evaluated at each listed temperature"})
+        for nm, x, w in zip(("free energy", "entropy", "heat capacity"), tp[1:], (P[0], P[1] * 1000, P[2] * 1000)):
+            val = None
+            if isinstance(x, Ref) and isinstance(s2.heap[x.id], NDArr) and len(s2.heap[x.id].flat) == 1:
+                val = num(s2.heap[x.id].flat[0])
+            run.sink.add(pref, "post", list(s2.pc), (val == w) if val is not None else z3.BoolVal(False),
+                         meta={"label": "reported %s of the Python path" % nm})
+    run.functions.append({"file": PF, "function": "ThermalProperties._run_py_thermal_properties", "line": m.lineno, "sha1": mod.sha(m),
+                          "obligations": len(run.sink.obls) - n0})
+
+
+def replay_c_driver(model):
+    """real ThermalProperties._run_c_thermal_properties with a numpy stand-in that implements the kernel's proved contract
+    (props[t, :] += sum_q w_q sum_{b: f > cutoff} (F, S, C_V)(f, T)), 7 and 200003 q-points, compared with the direct formula"""
+    from pvc import creplay
+    code = r'''
+import sys, types, json
+import numpy as np
+stub = types.ModuleType("phonopy._phonopy")
+from phonopy.phonon.thermal_properties import mode_F, mode_S, mode_cv
+calls = []
+def thermal_properties(props, temps, freqs, weights, cutoff, classical):
+    freqs = np.asarray(freqs); weights = np.asarray(weights)
+    calls.append((freqs.shape, weights.shape))
+    c = freqs > cutoff
+    fq = np.where(c, freqs, 1.0)
+    for i, t in enumerate(temps):
+        if t > 0:
+            for k, fn in enumerate((mode_F, mode_S, mode_cv)):
+                props[i, k] += np.sum(np.where(c, fn(t, fq, classical=classical), 0.0) * weights[:, None])
+stub.thermal_properties = thermal_properties
+sys.modules["phonopy._phonopy"] = stub
+import phonopy
+phonopy._phonopy = stub
+import phonopy.phonon.thermal_properties as tpm
+rng = np.random.default_rng(3)
+worst = 0.0; nq_bad = None
+for nq in (7, 200003):
+    o = tpm.ThermalProperties.__new__(tpm.ThermalProperties)
+    o._temperatures = np.array([50.0, 300.0, 700.0]); o._frequencies = rng.uniform(0.002, 0.05, size=(nq, 6)); o._weights = rng.integers(1, 7, size=nq).astype("int64")
+    o._cutoff_frequency = 0.0; o._classical = False; o._zero_point_energy = 0.25
+    o._run_c_thermal_properties()
+    ref = np.zeros((3, 3)); thermal_properties(ref, o._temperatures, o._frequencies, o._weights, 0.0, False)
+    ref /= o._weights.sum()
+    want = [ref[:, 0] * tpm.EvTokJmol + 0.25, ref[:, 1] * tpm.EvTokJmol * 1000, ref[:, 2] * tpm.EvTokJmol * 1000]
+    got = o._thermal_properties
+    dev = float(max(np.abs(np.array(g) - w).max() / np.abs(w).max() for g, w in zip(got[1:], want)))
+    if dev > worst:
+        worst, nq_bad = dev, nq
+print(json.dumps({"max_rel_dev": worst, "q_points_of_worst_case": nq_bad}))
+'''
+    rc, out, err = creplay.py_eval(code)
+    if rc != 0:
+        return {"reproduced": False, "reason": err[-500:]}
+    import json
+    r = json.loads(out.strip().splitlines()[-1])
+    return {"reproduced": r["max_rel_dev"] > 1e-9, "input": {"q-points": [7, 200003], "bands": 6, "weights": "random integers 1..6 (seed 3)", "temperatures": [50, 300, 700]},
+            "real_code": r, "expected": "reported F, S, C_V == weighted mesh sums / sum(weights) in the reported units"}
